@@ -314,3 +314,93 @@ def wholerun_stage(ctx, n_quick, n_thorough, per_record, **overrides):
     finally:
         for res in results:
             res.cleanup()
+
+
+# ------------------------------------------------------------------------------------------------
+# several emissions sharing real Components (interaction between emissions of one component:
+# list handling in Component.update_emissions_state / tag_emissions)
+# ------------------------------------------------------------------------------------------------
+def small_world(rng):
+    n = rng.randint(1, 10)
+    comps = []
+    for _ in range(rng.randint(1, 3)):
+        ems = []
+        for _ in range(rng.randint(1, 4)):
+            rep, inter, ad, idur = rng.choice(KINDS)
+            nrd = rng.randint(1, 7)
+            ems.append((rng.randint(-nrd, n), nrd, rng.randint(0, 3), rep, inter, ad, idur, rng.choice([256, 512, 1024, 2048])))
+        evs = []
+        for _ in range(rng.choice([0, 1, 1, 2, 3])):
+            if rng.random() < 0.3:
+                evs.append((rng.randrange(n), rng.randint(4, 5), 0, 1))
+            else:
+                evs.append((rng.randrange(n), rng.randint(1, 3), rng.choice([0, 0, 1, 2])))
+        evs.sort(key=lambda e: e[0])
+        comps.append((ems, evs))
+    return n, comps
+
+
+def world_emission_results(world, with_events=True):
+    """drive real Components holding several emissions each; returns [(case_tuple, summary_dict)]"""
+    from datetime import timedelta
+    from harness.adapters import emission as E
+    from file_processing.output_processing.output_utils import EmisInfo, TsEmisData
+    from scheduling.schedule_dataclasses import TaggingInfo
+
+    n, comps = world
+    real = []
+    for ems, evs in comps:
+        objs = [E.make_emission(st, nrd, dl, rep, inter, ad, idur, rate=r / 1024.0) for (st, nrd, dl, rep, inter, ad, idur, r) in ems]
+        real.append((E.make_component(objs), evs if with_events else [], ems, objs))
+    for dn in range(n):
+        cur = E.SIM_START + timedelta(days=dn)
+        for comp, evs, _, _ in real:
+            comp.activate_emissions(cur, 0)
+        for comp, evs, _, _ in real:
+            for ev in evs:
+                if ev[0] != dn:
+                    continue
+                if len(ev) > 3 and ev[3] == 1:
+                    for e_ in comp._active_emissions:
+                        e_.update_detection_records(company=f"c{ev[1]}", detect_date=cur)
+                elif comp._active_emissions:
+                    comp.tag_emissions(TaggingInfo(2.0, cur, 5, f"c{ev[1]}", "1", ev[2]))
+        info, data = EmisInfo(), TsEmisData()
+        for comp, _, _, _ in real:
+            comp.update_emissions_state(info, data)
+    out = []
+    for comp, evs, ems, objs in real:
+        for spec, em in zip(ems, objs):
+            sd = em.get_summary_dict(E.summary_end_date(n))
+            case = tuple(spec[:7]) + (n, list(evs))
+            out.append((case, parse_summary(E.summary_line(em, sd))))
+    return out
+
+
+def shared_component_stage(ctx, per_emission):
+    """`per_emission(ctx, case, result, baseline_result, world)` evaluates a property's oracle on every
+    emission of random worlds in which several emissions share a component; also checks each emission
+    against the single-emission Lean model (emissions of one component must not influence each other)"""
+    worlds = [small_world(ctx.rng) for _ in range(ctx.pick(800, 15000))]
+    lines, owners = [], []
+    from harness.adapters import emission as E
+
+    for w in worlds:
+        with_ev = world_emission_results(w, True)
+        without = world_emission_results(w, False)
+        for (case, res), (_, base) in zip(with_ev, without):
+            lines.append(E.case_line(case))
+            owners.append((w, case, res, base))
+    out = LeanDriver("drv_emission").run(lines)
+    for (w, case, res, base), ml in zip(owners, out):
+        ctx.evaluations += 1
+        mres = parse_summary(ml)
+        if mres != res:
+            ctx.disagree("emission/shared-component", {"world": w, "case": list(case)}, mres, res)
+            ctx.count("shared_component_disagree")
+        per_emission(ctx, case, res, base, w)
+        k = nontrivial_key(case, res)
+        if k is not None:
+            ctx.nontrivial.add(("sc",) + k)
+    ctx.traces += len(worlds)
+    ctx.count("shared_component_worlds", len(worlds))
